@@ -64,6 +64,20 @@ def run_case(rng, tier, case):
                     i_s, i_e, _k2 = gen.gen_window(rng, g_, kinds=['none', 'inside', 'straddle_start', 'straddle_end', 'start_only', 'end_only'])
                     x['start'] = i_s; x['end'] = i_e
         case.feature('structured_with_windows')
+    pers = [a for a in spec['assets'] if a.get('periodicity') and a['type'] in ('SimpleContract', 'Contract')]
+    if pers and rng.random() < 0.5:
+        # a second periodic asset with the SAME period but another duration interval (its own table of periods and durations)
+        tw = copy.deepcopy(pers[0]); tw['name'] = 'pe_twin'
+        durs = [d_ for (p_, d_) in gen.PERIOD_OF.get(spec['grid']['freq'], []) if p_ == tw['periodicity'] and d_ != tw.get('periodicity_duration')]
+        if durs:
+            d_new = durs[int(rng.integers(len(durs)))]
+            if d_new is None:
+                tw.pop('periodicity_duration', None)
+            else:
+                tw['periodicity_duration'] = d_new
+            tw['min_cap'] = gen.r2(tw['min_cap'] * 0.5); tw['extra_costs'] = 0.7
+            spec['assets'].append(tw)
+            case.feature('periodic_twin_other_duration')
     mip = gen.is_mip(spec)
     tolv = solve.TOL_VAL_MIP if mip else solve.TOL_VAL
     for t in gen.asset_types(spec):
@@ -74,6 +88,16 @@ def run_case(rng, tier, case):
     p0 = Snap(r0.op)
     # ---------------- renaming
     ren, maps = rename_hostile(rng, spec)
+    if maps and structs and rng.random() < 0.3:
+        # names are unique per portfolio: after the renaming an outer asset may carry the name of an asset wrapped inside a structured asset
+        outer_ = [a for a in ren['assets'] if a['type'] not in ('StructuredAsset', 'LinkedAsset', 'ScaledAsset')]
+        inner_ = [x for a in ren['assets'] if a['type'] == 'StructuredAsset' for x in a['assets']]
+        if outer_ and inner_:
+            o_ = outer_[int(rng.integers(len(outer_)))]; i_ = inner_[int(rng.integers(len(inner_)))]
+            old_name = o_['name']; o_['name'] = i_['name']
+            maps['assets'] = {k_: (i_['name'] if v_ == old_name else v_) for k_, v_ in maps['assets'].items()}
+            # (the inner asset keeps its entry: two spec names now map to the same text, in different name spaces)
+            case.feature('outer_asset_renamed_like_wrapped_asset')
     p1 = None; has_struct = True
     case.key = env.spec_key([spec, ren]); case.sample = {'P': gen.abbreviate(spec), 'renaming': maps}; case.spec = {'P': spec, 'renamed': ren}
     if maps:
